@@ -2,18 +2,87 @@
 
 SETUP = "bash bin/setup"
 
+TECH = "bounded model checking of the compiled code (Kani 0.68 -> CBMC 6.11 -> CaDiCaL SAT), symbolic inputs, unwinding assertions on"
+TRUST = " Trusted: Kani MIR->GOTO translation, CBMC, CaDiCaL; stated stubs/models only."
+
 CLAIMED = {
+ "C01": dict(
+   category="model_checking",
+   text="Per-codec SAT queries over fully symbolic byte buffers: every accepted byte string of VarInt, integers, hashes, OutPoint, Sequence, LockTime/Height/Time, confidential Asset/Value/Nonce, Script and TxOut (sharded by layout class, all truncations) re-encodes to exactly the consumed bytes with reported length == bytes written == bytes consumed; value-side round trip for VarInt and explicit confidential values; deserialize() == partial + all-consumed; generic Vec<T> framing for T=u32 with counts <= 2. Inside these bounds the verdict covers all 2^(8N) inputs, including the non-minimal and boundary encodings no vector exercises.",
+   design_ref="DESIGN.md §2 C01 and §7 (what was built)",
+   note="NARROWING: TxIn, witnesses, Transaction, BlockHeader, Block and dynafed::Params decoders are NOT decided (Vec<Vec<u8>>/Vec<TxIn> decoding exhausts CBMC: see DESIGN §7); they are covered only by the composition argument over the decided component codecs. libsecp parse/serialize replaced by contract models (curve validity = arbitrary deterministic predicate)." + TRUST,
+   technique=TECH),
+ "C03": dict(
+   category="model_checking",
+   text="Only the legacy SIGHASH_SINGLE(|ANYONECANPAY) out-of-range rule is decided: for a symbolic transaction and an input index without a corresponding output, encode_legacy_signing_data_to produces exactly the 32-byte constant 0x01 00..00 and legacy_sighash returns that constant itself, as Elements consensus does. Found that legacy_sighash hashed the constant (fixed).",
+   design_ref="DESIGN.md §7.4 C03",
+   note="VERY NARROW: the legacy, segwit-v0 and taproot message layouts are NOT decided (hashing whole transactions through consensus_encode does not finish in CBMC, DESIGN §7.1); harnesses for them exist unregistered in c03.rs." + TRUST,
+   technique=TECH),
+ "C06": dict(
+   category="model_checking",
+   text="Structure rule of blinded segwit addresses at the point where it is enforced (blech32 CheckedHrpstring::validate_segwit): accepted => payload = 33-byte key + witness program of 2..40 bytes (20|32 for v0), canonical zero padding of at most 4 bits; payload length per shard (33+p, p in {0,1,2,20,32,40,41}; more in thorough), version / leading / padding symbols symbolic. Re-derives the 0/1-byte-program defect when its fix is reverted.",
+   design_ref="DESIGN.md §7.4 C06",
+   note="NARROW: reached through a cfg(kani) constructor hook after the character scan; Address::from_str/parse_with_params, base58, Display, network exclusivity and text round trip are NOT decided (str::rfind diverges in CBMC)." + TRUST,
+   technique=TECH),
+ "C08": dict(
+   category="model_checking",
+   text="PartiallySignedTransaction::locktime() compared with a reference written from BIP370 for every assignment of {none,time,height,both} requirements with arbitrary values to n = 0..3 inputs (n per shard) and every fallback; also proves the two unreachable!() arms unreachable. Found the height-vs-time preference defect (fixed).",
+   design_ref="DESIGN.md §2 C08",
+   note="NARROWING: only the lock-time clause is decided; tx->PSET->tx identity and unique-id invariance are not (PSET extract/txid hashing over heap structures did not fit: DESIGN §7). More than 3 inputs (4 in thorough) outside." + TRUST,
+   technique=TECH),
+ "C10": dict(
+   category="model_checking",
+   text="Panic/overflow/out-of-bounds freedom (Kani's instrumented checks) of blech32 string parsers on all ASCII strings <= 6 chars, commitment and PSET commitment-value parsers on slices of every length 0..40 (C models read exactly what libsecp reads, so CBMC flags over-reads), script instruction iterators on all scripts <= 6 bytes, control-block / merkle-branch / Schnorr-signature slice parsers, and the vector-allocation guard over the full u64 count range. Found the new_bech32 panic and the commitment over-read (both fixed).",
+   design_ref="DESIGN.md §2 C10",
+   note="NARROWING: whole-PSET decoding, Transaction::blind, PSET merge/extract, taproot builder and sighash entry points are not covered here (some are covered as side conditions of C08/C14/C16 harnesses). Inputs longer than the bounds outside. Memory-safety counterexamples are confirmed under valgrind." + TRUST,
+   technique=TECH),
+ "C11": dict(
+   category="model_checking",
+   text="Entropy / asset-id / token-id formulas and TxIn::issuance_ids checked against a reference written from the derivation, for fully symbolic outpoint, contract hash / entropy, nonce and amount variants; TxIn vs pset::Input::from_txin agreement for every index < 2^30 and the null outpoint with the pegin flag free. SHA-256 compression is an uninterpreted function, so equalities hold for real SHA-256. Found the flag-bits-in-index defect (fixed).",
+   design_ref="DESIGN.md §2 C11",
+   note="JSON contract-hash clause not decided (serde_json out of reach). extract_tx(from_tx(tx)) leg not decided. Index 0x3fffffff with both flags excluded (format-inherent ambiguity)." + TRUST,
+   technique=TECH + "; SHA-256 compression as uninterpreted function"),
+ "C14": dict(
+   category="model_checking",
+   text="First-present-wins rule of Input::merge / Output::merge on scalar Option fields, lock-time maxima, and the Global::merge flag/version kernels incl. commutativity of the result, for all field presence/value combinations, through cfg(kani) hooks onto the crate-private merge functions. Found that Input::merge dropped sighash_type and sequence (fixed).",
+   design_ref="DESIGN.md §2 C14",
+   note="NARROWING: xpub key-source reconciliation, multi-entry map unions, the unique-id gate and k-way order insensitivity are NOT decided (BTreeMap iteration diverges in CBMC, DESIGN §7)." + TRUST,
+   technique=TECH),
+ "C16": dict(
+   category="model_checking",
+   text="All is_* template predicates == byte-pattern reference and Address::from_script is Some exactly for the listed templates, for EVERY byte string of length 0..45; payload extraction and p2pkh/p2sh output-script round trip per template; builder: minimal push opcode for lengths around 75/76 and 255/256, push_int and script-number round trip over all |n| < 2^31, VERIFY folding table incl. 'never after a data push'. Found the missing lower bound in is_v1plus_p2witprog (fixed).",
+   design_ref="DESIGN.md §2 C16",
+   note="65535/65536 push boundary, witness-address script_pubkey construction (script-number builder under a symbolic version) and text round trip outside." + TRUST,
+   technique=TECH),
+ "C17": dict(
+   category="model_checking",
+   text="Three solver obligations on the real checksum engine with the blech32 generator constants: L one-step GF(2)-linearity for all residues/symbols; D no 1- or 2-symbol error pattern within a window of N symbols (positions and symbols symbolic; N = 40 and 96 quick; 140 (every supported address length), 256, 512, 1023 thorough) yields residue 0 or the other variant's target; V the blech32 decoder accepts exactly the strings whose full polymod (hrp expansion + ALL data symbols) equals the target, checked against a reference polymod; plus mixed-case rejection across hrp/data.",
+   design_ref="DESIGN.md §2 C17",
+   note="Induction over string length from L is a pencil argument (trusted). Unblinded bech32/bech32m validation lives in the external bech32 crate (not re-verified). Cross-hrp corruptions not decided." + TRUST,
+   technique=TECH),
  "C18": dict(
    category="model_checking",
    text="Bounded model checking of the compiled fast_merkle_root against the definitional tree, one SAT query set per leaf count n (all n in 0..=9 quick, 0..=33 thorough) with fully symbolic leaves; plus 'equal roots => equal leaves' under an injective compression function. Inside the bound the verdict covers every leaf content at once, which no test vector can.",
    design_ref="DESIGN.md §2 C18",
-   note="SHA-256 compression is an uninterpreted function (equalities hold for every compression function); injectivity assumed for the dependence/order obligations; leaf counts above the bound are outside the claim; Kani/CBMC/CaDiCaL trusted.",
-   technique="bounded model checking (Kani/CBMC/CaDiCaL) of the compiled code, SHA-256 compression as uninterpreted function"),
+   note="SHA-256 compression is an uninterpreted function (equalities hold for every compression function); injectivity assumed for the dependence/order obligations; leaf counts above the bound are outside the claim." + TRUST,
+   technique=TECH + "; SHA-256 compression as uninterpreted function"),
+ "C19": dict(
+   category="model_checking",
+   text="FullParams root == two-level commitment layout written from the spec; compact form carries exactly the layout's extra root and keeps script + limit; compact root layout for symbolic elided root; Null root is zero. Together: compaction cannot change the root. Field lengths per shard, contents symbolic, SHA-256 compression uninterpreted.",
+   design_ref="DESIGN.md §2 C19",
+   note="Header-level root (fast-merkle of current/proposed roots) and direct two-computation comparisons only in the thorough tier (heavy); Null-inside-header shards not decided. Scripts <= 3 bytes, <= 2 extension entries." + TRUST,
+   technique=TECH + "; SHA-256 compression as uninterpreted function"),
 }
 
 NOT_APPLICABLE = {
- "C04": "conclusion depends on libsecp256k1-zkp rangeproof sign/rewind, surjection proofs, ECDH and 256-bit scalar arithmetic behind FFI; cannot be encoded for a SAT/SMT solver, and with those calls stubbed the property is no longer about the real system (panic-freedom of Transaction::blind is covered under C10)",
+ "C02": "the ids hash whole transactions / headers by streaming consensus_encode into a SHA-256 engine; in CBMC every `?` on Result<_, encode::Error> is an undecided branch (layout decoding of that enum is not constant-folded), so all buffer offsets become symbolic and even a 1-input/1-output txid harness exhausts 16 GB (harnesses kept unregistered in harness/src/c02.rs; DESIGN §7.1, §7.4)",
+ "C04": "conclusion depends on libsecp256k1-zkp rangeproof sign/rewind, surjection proofs, ECDH and 256-bit scalar arithmetic behind FFI; cannot be encoded for a SAT/SMT solver, and with those calls stubbed the property is no longer about the real system",
+ "C05": "verify_tx_amt_proofs iterates Vec<TxOut>/Vec<TxIn> and calls libsecp verification; the recording-oracle harness of the design was not built: the enabling pieces (whole-transaction values with nested heap fields under symbolic control flow) proved out of CBMC's reach in C01/C02/C12 probes (DESIGN §7.4)",
+ "C07": "PSET maps (a dozen BTreeMaps per map, > 1 KB structs) need 15-50 GB in CBMC and BTreeMap iteration does not unwind (symbolic tree height); whole-PSET decoding was probed out of reach in the design phase; the per-value codecs were not built for lack of time (DESIGN §7.4)",
  "C09": "same as C04, plus HashMap<usize,_> with RandomState in the API and curve-order scalar arithmetic through FFI",
+ "C12": "size/weight harnesses (harness/src/c12.rs) compare scaled_size with the real encoder's byte count into a counting writer; encoding a whole transaction value runs into the undecided `?` discriminants (DESIGN §7.1) and did not finish within the probe caps; kept unregistered",
+ "C13": "every taproot/segwit query hashes all inputs/outputs through consensus_encode into SHA engines (see C02); even the error-only obligation (PrevoutKind) explores the hashing path because Result<_, sighash::Error> is undecided at the `?` (DESIGN §7.1); harnesses kept unregistered in harness/src/c03.rs",
+ "C15": "taproot builder/spend-info use BTreeMap/BTreeSet/BinaryHeap over heap nodes plus tagged hashing of scripts through consensus_encode; not built after the C14/C19 probes showed both ingredients out of reach (DESIGN §7.4)",
  "C20": "serde_json/serde_cbor and core::fmt string machinery over heap-built values are outside bounded model checking reach; the finite remainder (6-8 enum values) is trivial for a solver",
 }
 
